@@ -110,8 +110,20 @@ End ==
   /\ Judge(DOMAIN live = {}, "buffer_neither_reused_nor_freed")
   /\ live' = <<>> /\ Keep
 
+\* A pool operation panicked in a holder thread (e.g. "alignment should match", an index out of
+\* range, a poisoned mutex): an outcome the property forbids.  The rest of the case is not judged
+\* (the pool's state is unknown after a panic inside a critical section): minsize = -1 marks it.
+Panic ==
+  /\ e.ev = "h_panic"
+  /\ IF minsize = -1 THEN UNCHANGED bad
+     ELSE bad' = Flag(bad, FALSE, [api |-> "h_panic", class |-> "pool_operation_panicked"], [event |-> e, where |-> "n/a"])
+  /\ minsize' = -1 /\ live' = <<>> /\ UNCHANGED <<nhit, nmiss>>
+Skip == /\ minsize = -1 /\ e.ev \notin {"case", "h_panic"} /\ UNCHANGED <<bad, live, minsize, nhit, nmiss>>
+
 Next == /\ l <= NRec /\ l' = l + 1 /\ nev' = nev + 1
-        /\ (Case \/ AllocHit \/ AllocMiss \/ HAlloc \/ HAdd \/ PoolAdd \/ PoolFree \/ HDrop \/ PoolDrop \/ End)
+        /\ \/ Panic \/ Skip
+           \/ /\ (minsize # -1 \/ e.ev = "case")
+              /\ (Case \/ AllocHit \/ AllocMiss \/ HAlloc \/ HAdd \/ PoolAdd \/ PoolFree \/ HDrop \/ PoolDrop \/ End)
 
 Report == l = NRec + 1 =>
             /\ ReportBad(bad)
